@@ -200,7 +200,7 @@ func TestVerifC03(t *testing.T) {
 				add := map[string]bool{}
 				// degenerate but legal triples (no path separator in any part): empty parts,
 				// ".", "..", parts with spaces and dots
-				odd := [][3]string{{"License", "NoVariant", ""}, {"", "NoCategory", "v.txt"}, {"License", ".", "dot.txt"}, {"License", "..", "x"}, {"Header", "a b", "c d.txt"}, {"License", "", ""}, {"X.Y", "n..m", ".hidden"}}
+				odd := [][3]string{{"License", "NoVariant", ""}, {"", "NoCategory", "v.txt"}, {"License", ".", "dot.txt"}, {"License", "..", "x"}, {"Header", "a b", "c d.txt"}, {"License", "", ""}, {"X.Y", "n..m", ".hidden"}, {"License", "100%-free", "v%d.txt"}, {"Lic%s", "%v", "%"}}
 				for i := range sd {
 					if i < len(odd) && r.Intn(2) == 0 {
 						sd[i].key = odd[i][0] + "/" + odd[i][1] + "/" + odd[i][2]
